@@ -13,6 +13,7 @@ package verifcheck
 
 import (
 	"fmt"
+	"os"
 	"path/filepath"
 	"sync/atomic"
 	"testing"
@@ -797,6 +798,236 @@ func TestVerif_C14_overlap(t *testing.T) {
 		}
 	}
 	col.Extra("cells_total", len(cells))
+	col.SetExhaustive(true)
+	if col.Failed() {
+		t.Fail()
+	}
+}
+
+// ---------------------------------------------------------------------------------------------
+// part "failedadmin": the snapshot / compaction fails (its temporary file cannot be created because
+// a directory of that name is in the way) after client writes have been acknowledged inside its
+// snapshot-mode window. A failed admin operation must not cost an acknowledged write.
+
+type c14FailCell struct {
+	Admin string `json:"admin"` // snapshot | rewrite
+	Op    string `json:"op"`
+	N     int    `json:"n"` // number of further KVSets issued inside the window
+}
+
+func c14FailAllCells() []c14FailCell {
+	var out []c14FailCell
+	for _, a := range []string{"snapshot", "rewrite"} {
+		for _, op := range c14OverlapOps {
+			for _, n := range []int{0, 1, 3} {
+				out = append(out, c14FailCell{Admin: a, Op: op, N: n})
+			}
+		}
+	}
+	return out
+}
+
+func c14FailRun(c c14FailCell) (msg string, labels []string) {
+	dir, cleanup := verifkit.TempDir("c14f")
+	defer cleanup()
+	data := filepath.Join(dir, "data")
+	e, err := engine.Open(engineOpts(data))
+	if err != nil {
+		return "harness: " + err.Error(), nil
+	}
+	closed := false
+	var released atomic.Bool
+	adminGo := make(chan struct{}, 4)
+	defer func() {
+		released.Store(true)
+		select {
+		case adminGo <- struct{}{}:
+		default:
+		}
+		SetExtraHook(nil)
+		if !closed {
+			e.Close()
+		}
+	}()
+	for _, err := range []error{
+		e.VCreate("i0", distance.Euclidean, 16, 200, distance.Float32, "", nil, nil, nil),
+		e.VAdd("i0", "a", []float32{1, 0}, map[string]any{"s": "x"}),
+		e.VAdd("i0", "b", []float32{0, 1}, nil),
+		e.VAdd("i0", "c", []float32{1, 1}, map[string]any{"n": 1.0}),
+		e.VLink("i0", "a", "b", "r", "", 1, nil),
+		e.KVSet("k0", []byte("v0")),
+		e.AOF.Flush(),
+	} {
+		if err != nil {
+			return "harness: fixture: " + err.Error(), nil
+		}
+	}
+	// the fault: the temporary file of the admin operation cannot be created
+	block := filepath.Join(data, "kektordb.kdb.tmp")
+	first := "snapshot.begin"
+	if c.Admin == "rewrite" {
+		block = filepath.Join(data, "rewrite.tmp")
+		first = "rewrite.begin"
+	}
+	_ = first
+	parkAt := "snapshot.begin"
+	if c.Admin == "rewrite" {
+		// RewriteAOF creates its temporary file before it enters snapshot mode: the fault is injected later,
+		// by making the replace step fail is not possible from outside; the rewrite variant therefore blocks
+		// the creation itself and only checks that the refused compaction costs nothing
+		parkAt = ""
+	}
+	if err := os.MkdirAll(filepath.Join(block, "x"), 0o755); err != nil {
+		return "harness: " + err.Error(), nil
+	}
+	parked := make(chan struct{}, 1)
+	SetExtraHook(func(name string) {
+		if released.Load() || parkAt == "" || name != parkAt {
+			return
+		}
+		parked <- struct{}{}
+		<-adminGo
+	})
+	adminDone := make(chan error, 1)
+	go func() {
+		if c.Admin == "snapshot" {
+			adminDone <- e.SaveSnapshot()
+		} else {
+			adminDone <- e.RewriteAOF()
+		}
+	}()
+	if parkAt != "" {
+		select {
+		case <-parked:
+		case err := <-adminDone:
+			return fmt.Sprintf("harness: %s finished before %s: %v", c.Admin, parkAt, err), labels
+		case <-time.After(c14Hang):
+			return fmt.Sprintf("%s did not reach %s within 2 min", c.Admin, parkAt), labels
+		}
+	}
+	doWrite := func() error {
+		switch c.Op {
+		case "kvset":
+			return e.KVSet("k1", []byte("v1"))
+		case "vadd":
+			return e.VAdd("i0", "d", []float32{2, 2}, map[string]any{"s": "new"})
+		case "vdel":
+			return e.VDelete("i0", "c")
+		case "vmeta":
+			return e.VSetMetadata("i0", "a", map[string]any{"t": "merged"})
+		case "glink":
+			return e.VLink("i0", "b", "c", "r", "", 1, nil)
+		case "vbatch":
+			return e.VAddBatch("i0", []types.BatchObject{{Id: "e", Vector: []float32{5, 5}}, {Id: "f", Vector: []float32{6, 6}, Metadata: map[string]any{"s": "f"}}})
+		}
+		return fmt.Errorf("unknown op")
+	}
+	if err := doWrite(); err != nil {
+		return fmt.Sprintf("client write %s rejected: %v", c.Op, err), labels
+	}
+	for i := 0; i < c.N; i++ {
+		if err := e.KVSet(fmt.Sprintf("w%d", i), []byte("x")); err != nil {
+			return fmt.Sprintf("KVSet inside the window rejected: %v", err), labels
+		}
+	}
+	released.Store(true)
+	if parkAt != "" {
+		adminGo <- struct{}{}
+	}
+	var adminErr error
+	select {
+	case adminErr = <-adminDone:
+	case <-time.After(c14Hang):
+		return fmt.Sprintf("%s did not return within 2 min", c.Admin), labels
+	}
+	SetExtraHook(nil)
+	if adminErr == nil {
+		labels = append(labels, "admin operation succeeded despite the blocked temporary path")
+	} else {
+		labels = append(labels, "admin operation failed as injected")
+	}
+	// a write after the failed operation
+	if err := e.KVSet("k2", []byte("v2")); err != nil {
+		return fmt.Sprintf("KVSet after the failed %s rejected: %v", c.Admin, err), labels
+	}
+	if c.Op == "vdel" {
+		deadline := time.Now().Add(2 * time.Second)
+		for time.Now().Before(deadline) {
+			if len(e.DB.GetAllRelations("i0::c", "in")) == 0 && len(e.DB.GetAllRelations("i0::c", "out")) == 0 {
+				break
+			}
+			time.Sleep(time.Millisecond)
+		}
+		time.Sleep(2 * time.Millisecond)
+	}
+	probe := map[string][]string{"i0": {"a", "b", "c", "d", "e", "f"}}
+	before, err := TakeDump(e, probe)
+	if err != nil {
+		return "live dump: " + err.Error(), labels
+	}
+	if err := e.Close(); err != nil {
+		closed = true
+		return "Close: " + err.Error(), labels
+	}
+	closed = true
+	_ = os.RemoveAll(block)
+	e2, err := engine.Open(engineOpts(data))
+	if err != nil {
+		return "Open after the failed " + c.Admin + ": " + err.Error(), labels
+	}
+	defer e2.Close()
+	after, err := TakeDump(e2, probe)
+	if err != nil {
+		return "dump after Open: " + err.Error(), labels
+	}
+	if d := DiffDumps(before, after); d != "" {
+		return fmt.Sprintf("%s failed (%v) while client writes were acknowledged inside its window; after Close/Open the state differs from the state before Close: %s", c.Admin, adminErr, d), labels
+	}
+	return "", labels
+}
+
+func TestVerif_C14_failedadmin(t *testing.T) {
+	col := verifkit.New("C14", "failedadmin",
+		"ENUMERATION: admin operation (SaveSnapshot parked right after it entered snapshot mode; RewriteAOF) whose temporary file cannot be created (a directory is in the way) x client write kind (kvset vadd vdel vmeta glink vbatch) acknowledged inside the window x 0/1/3 further KVSets = 36 cells; the admin operation then fails; oracle = full API-visible state equal before Close and after Open (no acknowledged write is lost to a failed snapshot or compaction); non-trivial = the admin operation failed as injected")
+	defer col.Finish()
+	if rp := verifkit.ReplayPath(); rp != "" {
+		if verifkit.ReplayPart(rp) != "failedadmin" {
+			return
+		}
+		var c c14FailCell
+		if err := verifkit.LoadReplay(rp, &c); err != nil {
+			t.Fatal(err)
+		}
+		col.Case(c, true, "replay")
+		if msg, _ := c14FailRun(c); msg != "" {
+			col.Fail(c, "%s", msg)
+			t.Fatal(msg)
+		}
+		return
+	}
+	for i, c := range c14FailAllCells() {
+		if i%verifkit.Shards() != verifkit.Shard() {
+			continue
+		}
+		col.InFlight(c)
+		msg, labels := c14FailRun(c)
+		col.Landed()
+		nt := false
+		for _, l := range labels {
+			if l == "admin operation failed as injected" {
+				nt = true
+			}
+		}
+		col.Case(c, nt, append([]string{c.Admin, c.Op}, labels...)...)
+		if msg != "" {
+			if len(msg) >= 8 && msg[:8] == "harness:" {
+				col.Note(msg)
+				t.Errorf("%s", msg)
+				continue
+			}
+			col.FailDistinct(c, "%s", msg)
+		}
+	}
 	col.SetExhaustive(true)
 	if col.Failed() {
 		t.Fail()
